@@ -236,6 +236,53 @@ def gen_io_layout(rng):
     return "world %s -" % ",".join(kinds), ops
 
 
+def gen_io_data(rng):
+    """directed family: several ADF files open for modification at once, small writes to them interleaved (ADF has ONE write
+    buffer and ONE read buffer for all files), read back through the same handle, after writes to the other files, and after a
+    close and reopen: every file must hold what was written to IT"""
+    nk = rng.randint(2, 5)
+    kinds = [rng.choice(["ok", "ok", "okB", "okE"]) for _ in range(nk)]
+    kinds[rng.randrange(nk)] = "ok"             # "new" recreates a file of the native layout
+    ops, live, val = [], {}, 100
+    for n in rng.sample(range(nk), rng.randint(2, nk)):
+        c = min(set(range(1, 12)) - set(live))
+        ops.append("open %d m" % n); live[c] = n
+    for _ in range(rng.randint(8, 30)):
+        r = rng.random()
+        hs = sorted(live)
+        if r < 0.5 and hs:
+            val += 1
+            ops.append("put %d %d %d" % (rng.choice(hs), rng.randint(1, 3), val))
+        elif r < 0.8 and hs:
+            ops.append("chk %d %d" % (rng.choice(hs), rng.randint(1, 3)))
+        elif r < 0.9 and hs:
+            c = rng.choice(hs)
+            ops.append("close %d" % c); del live[c]
+        else:
+            closed = [n for n in range(nk) if n not in live.values()]
+            if closed:
+                c = min(set(range(1, 12)) - set(live))
+                n = rng.choice(closed)
+                if kinds[n] == "ok" and rng.random() < 0.5:
+                    # a file created afresh and, before anything else is done with it, a write to ANOTHER open file
+                    ops.append("new %d" % n)
+                    others = [h for h in sorted(live) if h != c]
+                    if others and rng.random() < 0.8:
+                        val += 1
+                        ops.append("put %d %d %d" % (rng.choice(others), rng.randint(1, 3), val))
+                else:
+                    ops.append("open %d %s" % (n, rng.choice("mmr")))
+                live[c] = n
+    for c in sorted(live):
+        ops.append("close %d" % c)
+    for n in range(nk):                          # what each file holds in the end, alone
+        ops += ["open %d r" % n] + ["chk 1 %d" % k for k in (1, 2, 3)] + ["close 1"]
+    return "world %s -" % ",".join(kinds), ops
+
+
+NOTABLE = ("put ", "chk ")        # data operations: they touch no handle table and are not given to the model
+
+
 def io_case(exe, world, ops, work, tag, with_model=True):
     d = os.path.join(work, tag)
     shutil.rmtree(d, ignore_errors=True)
@@ -243,7 +290,9 @@ def io_case(exe, world, ops, work, tag, with_model=True):
     script = "\n".join([world] + ops) + "\n"
     il, oc = vlib.run_impl(exe, script, args=[d, "io"], timeout=180)
     shutil.rmtree(d, ignore_errors=True)
-    ml = [l.split(" | live ")[0] for l in vlib.run_model("c16b", script, args=["io"])] if with_model else None
+    # "new <n>" (n a native-layout file of the world) is for the tables what "open <n> m" is
+    mscript = "\n".join([world] + [("open %s m" % o.split()[1] if o.startswith("new ") else o) for o in ops if not o.startswith(NOTABLE)]) + "\n"
+    ml = [l.split(" | live ")[0] for l in vlib.run_model("c16b", mscript, args=["io"])] if with_model else None
     return {"level": "cgio", "world": world, "ops": ops, "impl": il[1:], "outcome": oc, "model": ml[1:] if ml else None}
 
 
@@ -252,6 +301,7 @@ def io_oracle(r):
     if r["outcome"] != "ok" or len(r["impl"]) != len(r["ops"]):
         return [(None, {"problem": "crash or missing answers", "outcome": r["outcome"], "answers": len(r["impl"]), "ops": len(r["ops"])})], feats
     live, prev_tab, resets, maxlive, closed_once = {}, None, 0, 0, set()
+    mode, content = {}, {}                   # handle -> mode; (file, key) -> value last written to it
     kinds = r["world"].split()[1].split(",")
     wlinks = set(r["world"].split()[2].split(",")) if len(r["world"].split()) > 2 else set()
     if len(set(k for k in kinds if k.startswith("ok"))) > 1:
@@ -259,6 +309,10 @@ def io_oracle(r):
     for op, l in zip(r["ops"], r["impl"]):
         ans, tab = l.split(" | ")[0].split(), " | ".join(l.split(" | ")[1:])
         t = op.split()
+        if t[0] == "new":
+            t = ["open", t[1], "m"]
+            for key in [x for x in content if x[0] == int(t[1])]:
+                del content[key]                    # the file starts empty
         if t[0] == "open":
             if ans[1] == "ok":
                 c = int(ans[2])
@@ -266,7 +320,7 @@ def io_oracle(r):
                     bad.append((None, {"problem": "cgio_open_file returned the number of a file that is still open", "op": op, "answer": l}))
                 if c in closed_once:
                     feats.add("slot-reuse")
-                live[c] = int(t[1])
+                live[c] = int(t[1]); mode[c] = t[2]
                 maxlive = max(maxlive, len(live))
                 if int(tab.split()[2]) > 5:
                     feats.add("iolist-grown")
@@ -314,6 +368,28 @@ def io_oracle(r):
                                        "expected": "F%d_t" % b}))
             elif c not in live and ans[1] == "0":
                 bad.append((None, {"problem": "a use through a number that is not open was accepted", "op": op, "answer": l}))
+        elif t[0] == "put":
+            c, k, v = int(t[1]), int(t[2]), t[3]
+            if c in live and mode.get(c) == "m":
+                feats.add("interleaved-writes")
+                if ans[1] != "0":
+                    bad.append((None, {"problem": "a write through a handle open for modification failed", "op": op, "answer": l}))
+                else:
+                    content[(live[c], k)] = v
+            elif ans[1] == "0":
+                bad.append((None, {"problem": "a write through a read-only or closed handle was accepted", "op": op, "answer": l}))
+            if prev_tab is not None and tab != prev_tab:
+                bad.append((None, {"problem": "a data operation changed a table", "op": op, "answer": l, "before": prev_tab}))
+        elif t[0] == "chk":
+            c, k = int(t[1]), int(t[2])
+            if c in live and (live[c], k) in content:
+                if ans[1] != "0" or ans[2] != content[(live[c], k)]:
+                    bad.append((None, {"problem": "a file does not hold what was written to it (read back through an open handle)", "op": op,
+                                       "answer": l, "expected": content[(live[c], k)], "file": live[c]}))
+            elif c in live and ans[1] == "0":
+                bad.append((None, {"problem": "a node that was never written to this file was read from it", "op": op, "answer": l, "file": live[c]}))
+            if prev_tab is not None and tab != prev_tab:
+                bad.append((None, {"problem": "a data operation changed a table", "op": op, "answer": l, "before": prev_tab}))
         elif t[0] == "get":
             c = int(t[1])
             if c not in live and ans[1] == "0":
@@ -342,6 +418,13 @@ def load_corpus():
 FTYPE_SETUP = ["mk 1 adf"]
 FTYPE_OPS = ["open 1 r keep", "close 1", "open 2 w hdf5", "close 2", "open 1 r keep"]
 CLOSEDSLOT = ("world ok,ok,ok 0>1", ["open 0 r", "open 1 r", "close 2", "get 2", "use 2", "use 1", "get 7", "open 2 m", "use 2", "close 1", "close 2"])
+
+
+# two files open for modification, a small write to each in turn, read back at once and after close + reopen
+DATA2 = ("world ok,ok,okB,ok -", ["open 0 m", "new 3", "put 1 3 13", "chk 1 3", "put 2 1 41", "close 2", "close 1", "open 0 r", "chk 1 3", "close 1", "open 3 r", "chk 1 1",
+                                  "close 1", "open 0 m", "open 1 m", "open 2 m", "put 1 1 11", "put 2 1 21", "put 3 1 31", "chk 1 1", "chk 2 1", "chk 3 1", "put 1 2 12",
+                               "close 2", "chk 1 2", "put 3 2 32", "close 1", "close 3", "open 0 r", "chk 1 1", "chk 1 2", "close 1", "open 1 r", "chk 1 1",
+                               "chk 1 2", "close 1", "open 2 r", "chk 1 1", "chk 1 2", "close 1"])
 
 
 def body(ck, standalone):
@@ -400,6 +483,7 @@ def body(ck, standalone):
                                           oracle="regression corpus: the witness of a repaired defect fails again"))
     mcases = [gen_mll(ck.rng, big) for _ in range(nm)]
     icases = [(gen_io_layout(ck.rng) if i % 3 == 2 else gen_io(ck.rng, big)) for i in range(ni)]
+    icases += [DATA2] + [gen_io_data(ck.rng) for _ in range(ni // 3)]
     futs = [pool.submit(mll_case, exe, s, o, c, ck.work, "b_m%d" % i, res["ok"]) for i, (s, o, c) in enumerate(mcases)]
     futs += [pool.submit(io_case, exe, w, o, ck.work, "b_i%d" % i, res["ok"]) for i, (w, o) in enumerate(icases)]
     for fu in futs:
@@ -414,7 +498,7 @@ def body(ck, standalone):
         else:
             bad, feats = io_oracle(r)
             stats["io_sessions"] += 1
-            impl_cmp = r["impl"]
+            impl_cmp = [("open " + l[4:] if l.startswith("new ") else l) for o, l in zip(r["ops"], r["impl"]) if not o.startswith(NOTABLE)]
             rep = {"layer": "C16b", "level": "cgio", "world": r["world"], "ops": r["ops"]}
         stats["ops"] += len(r["ops"])
         for f in feats:
@@ -426,7 +510,7 @@ def body(ck, standalone):
             stats["states_compared"] += len(r["model"])
             if r["outcome"] != "ok" or impl_cmp != r["model"]:
                 dv = vlib.first_divergence(r["model"], impl_cmp)
-                corr.append(dict(rep, outcome=r["outcome"], first_divergence=dv and {"line": dv[0], "op": r["ops"][dv[0]] if dv[0] < len(r["ops"]) else None,
+                corr.append(dict(rep, outcome=r["outcome"], first_divergence=dv and {"line": dv[0], "op": ([o for o in r["ops"] if not o.startswith(NOTABLE)] + [None] * (dv[0] + 1))[dv[0]],
                                                                                      "model": dv[1], "impl": dv[2]}))
         for key, desc in bad:
             k = key or ("unclassified:" + desc["problem"][:50])
